@@ -852,6 +852,16 @@ def check_leftovers(ctx, F, fn, pr, prefix, passes):
             r = I.reachable_avoiding(fn, [], start=tgt, removed_blocks=[bi])
             if any(t in r for t in tails):
                 problems.append("a leftover combo that is present is not always emitted")
+    # completeness of the walk: every iteration of a loop runs the next inner loop, every innermost iteration performs the lookup
+    # (a `continue` in front of them skips cells of the grid: their leftover combos are never written)
+    for outer_, inner_ in zip(encl, encl[1:]):
+        if not L.in_every_iteration(fn, outer_, inner_.header):
+            problems.append(f"an iteration of the leftover loops can skip the loops inside it (line {fn.blocks[outer_.header]['line']}): the combos of that cell are never looked up")
+            break
+    if encl:
+        lookups_ = [b_ for b_, t_ in fn.calls() if b_ in encl[-1].body and t_["callee"].get("name") == "get" and is_lookup(pr.call_term(t_, b_))]
+        if lookups_ and not any(L.in_every_iteration(fn, encl[-1], b_) for b_ in lookups_):
+            problems.append("a combo of the innermost leftover loop can be skipped without being looked up")
     for lp in encl:
         if early_exits(fn, lp):
             problems.append(f"the leftover loops can stop early (line {fn.blocks[early_exits(fn, lp)[0][0]]['line']}): later leftover combos are dropped")
